@@ -8,6 +8,14 @@
 //        client     : tower_lsp_server::Client      -> opaque `Client`
 //        workspace_root, original_workspace_root, scan_task, config   DROPPED (no notification handler touches them)
 // Spliced at the top level of a unit, AFTER the FixtureDatabase struct and build/lspspec_main.rs.
+// v3 (composition with unit uri_glue): uri_to_path / path_to_uri are `//@stub uri_glue ..` (the contracts PROVED there
+// on the real bodies of src/providers/mod.rs); uri_path(u) := op_uri_to_path(u), path_uri(c, p) := op_path_to_uri(c.m(), p)
+// (prelude/uri_spec.rs); the cache invariant cache_inv and the URI lemmas come from prelude/uri_l2.rs.
+//@include prelude/fs_canonical_decl.rs
+//@include prelude/memokeys_canon_spec.rs
+//@include prelude/uri_abs_decl.rs
+//@include prelude/uri_spec.rs
+//@include prelude/uri_l2.rs
 pub mod jsonrpc {
     use super::*;
     #[verifier::external_body]
@@ -25,19 +33,26 @@ impl Client {
 pub struct Backend {
     pub client: Client,
     pub fixture_db: FixtureDatabase,
-    pub uri_cache: DashMap<PathBuf, Uri>,
+    pub uri_cache: UriCache,
 }
-/// the path a (file:) URI denotes, canonicalised, as Backend::uri_to_path computes it (URI syntax + file system)
-pub uninterp spec fn uri_path(u: Uri) -> Option<PV>;
+/// the URI cache with the Arc stripped: the prelude DashMap shim, sequential view `.m()`: UriMap = Map<PV, Uri>
+pub type UriCache = DashMap<PathBuf, Uri>;
+/// the path a (file:) URI denotes, canonicalised, as Backend::uri_to_path computes it: DEFINED as the operational
+/// specification proved for the real body in unit uri_glue
+pub open spec fn uri_path(u: Uri) -> Option<PV> { op_uri_to_path(u) }
+/// the URI the server answers with for a path, as Backend::path_to_uri computes it: DEFINED as the operational
+/// specification proved for the real body in unit uri_glue, on the view of the cache
+pub open spec fn path_uri(c: UriCache, p: PV) -> Option<Uri> { op_path_to_uri(c.m(), p) }
 pub open spec fn opt_pbv(o: Option<PathBuf>) -> Option<PV> { match o { Some(p) => Some(pbv(&p)), None => None } }
 pub assume_specification[ <Uri as Clone>::clone ](u: &Uri) -> (r: Uri)
     ensures r == *u;
+// Backend::uri_to_path / Backend::path_to_uri: NOT defined here; the including unit carries IN ITS OWN TEMPLATE (./check
+// computes the support-unit closure from the `//@stub` lines of the unit templates, not of the preludes)
+//     impl Backend {
+//     //@stub uri_glue uri_to_path
+//     //@stub uri_glue path_to_uri
+//     }
 impl Backend {
-    // ASSUMED (src/providers/mod.rs): URI parsing and canonicalisation are outside the model
-    #[verifier::external_body]
-    pub fn uri_to_path(&self, uri: &Uri) -> (r: Option<PathBuf>)
-        ensures opt_pbv(r) == uri_path(*uri)
-    { unimplemented!() }
     /// src/providers/diagnostics.rs publish_diagnostics_for_file: under contract in unit handlers_diag (what it hands
     /// to the client is expected_diags of the state it runs on).  Here it is only CALLED, through the T5b helper
     /// vp_publish_on whose precondition says on WHICH state: never seen by Verus.
